@@ -21,8 +21,10 @@
        body needs a type annotation on the new name (T_CutAx: nty x = Some xt);
    (2) the new name of a cut may re-use a name of the context only if the body consumes that name
        (premise `ctx_has G x = name_in_names x (free_names body)`);
-   (3) every other binder is fresh for the current context, and the two binders of a receive / split
-       differ;
+   (3) every other binder is fresh for the current context (also the payload name of a `case self`
+       branch), is not a name of the provider (cut name, payload of a client-side case branch, the
+       two results of a split, the binders of a client-side receive / shift), and the two binders
+       of a receive / split differ;
    (4) the provider is referred to as `self` or by the name bound for it (`is_provider n shadow`):
        the explicit provider of a declaration, or the continuation name of a provider-side
        receive / shift / case branch;
@@ -231,9 +233,13 @@ Inductive Typed : ctx -> option name -> sty -> form -> Prop :=
 (* cut with a call as body:   x <- new f(ys); P
    G1 = exactly the arguments, G1 >= m (mode of f's type) >= n (mode of A) *)
 | T_CutCall g sh A x fn args o k gl gr sg ft hft :
+    is_provider x sh = false ->                                                 (* (4) *)
     ctx_has g (ident x) = name_in_names x (free_names (FCall fn args o)) ->     (* (2) *)
     split_ctx g args [] gl gr ->
     sig_lookup Sg fn = Some sg -> fs_type sg = Some ft -> head D ft hft ->
+    (* an (optional) annotation on the new name agrees with the type the function provides *)
+    (forall xt, nty x = Some xt ->
+       exists xt1, add_missing D xt = Ok xt1 /\ check_wf D xt1 = true /\ teq D xt1 hft) ->
     ctx_ge gl (mode_of hft) -> down (mode_of hft) (mode_of A) = true ->
     Typed gl (Some x) hft (FCall fn args o) ->
     pol_ok x hft ->
@@ -241,6 +247,7 @@ Inductive Typed : ctx -> option name -> sty -> form -> Prop :=
     Typed g sh A (FNew x (FCall fn args o) k)
 (* cut with a typed axiom as body:   x : B <- new (axiom); P *)
 | T_CutAx g sh A x body k gl gr xt xt1 h :
+    is_provider x sh = false ->                                                  (* (4) *)
     has_continuation body = false -> (forall fn args o, body <> FCall fn args o) ->  (* (1) *)
     ctx_has g (ident x) = name_in_names x (free_names body) ->                   (* (2) *)
     split_ctx g (free_names body) [] gl gr ->
@@ -275,7 +282,7 @@ Inductive Typed : ctx -> option name -> sty -> form -> Prop :=
     Typed g sh A (FDrop c k)
 (* <y,z> <- split x; P      the mode of x admits contraction *)
 | T_Split g sh A x y from k tf hf :
-    is_provider from sh = false ->
+    is_provider from sh = false -> is_provider x sh = false -> is_provider y sh = false ->
     has g from tf -> head D tf hf ->
     fresh (without g from) x -> fresh (without g from) y -> name_equal x y = false ->
     contr (mode_of hf) = true ->
@@ -292,6 +299,7 @@ with TypedBrsR : ctx -> brs -> branches -> Prop :=
 | brsR_nil g bs : TypedBrsR g bs BrNil
 | brsR_cons g bs l pay k r bt hbt :
     find_br l bs = Some bt -> head D bt hbt -> pol_ok pay hbt ->
+    fresh g pay ->
     Typed g (as_provider pay hbt) bt k ->
     TypedBrsR g bs r ->
     TypedBrsR g bs (BrCons l pay k r)
@@ -301,7 +309,7 @@ with TypedBrsL : ctx -> option name -> sty -> brs -> branches -> Prop :=
 | brsL_nil g sh A bs : TypedBrsL g sh A bs BrNil
 | brsL_cons g sh A bs l pay k r bt hbt :
     find_br l bs = Some bt -> head D bt hbt -> pol_ok pay hbt ->
-    fresh g pay ->
+    is_provider pay sh = false -> fresh g pay ->
     Typed (bind g pay bt) sh A k ->
     TypedBrsL g sh A bs r ->
     TypedBrsL g sh A bs (BrCons l pay k r).
